@@ -100,14 +100,14 @@ ASSUMPTIONS = [
     "subdomain_data objects are harness objects with ufl_id(); integrals carrying them are not eval(repr)-ed",
 ]
 BUDGET = {"quick": 60, "thorough": 330}
-NCASES = {"quick": 4000, "thorough": 120000}
+NCASES = {"quick": 4000, "thorough": 60000}
 WORKERS = {"quick": 16, "thorough": 16}
 EVAL_COUNTER = "pairs"
 FLOORS = {
     "quick": {
         "pairs": 2000000,
         "near_miss_pairs": 200000,
-        "near_miss_unequal_ok": 200000,
+        "near_miss_unequal_ok": 150000,
         "identical_pairs": 35000,
         "eq_true": 35000,
         "triples": 400000,
@@ -125,23 +125,23 @@ FLOORS = {
         "families": 29,
     },
     "thorough": {
-        "pairs": 10000000,
+        "pairs": 7500000,
         "near_miss_pairs": 200000,
-        "near_miss_unequal_ok": 200000,
-        "identical_pairs": 600000,
-        "eq_true": 600000,
-        "triples": 8000000,
-        "snapshots_rechecked": 700000,
+        "near_miss_unequal_ok": 150000,
+        "identical_pairs": 350000,
+        "eq_true": 350000,
+        "triples": 5000000,
+        "snapshots_rechecked": 400000,
         "container_lookups": 8000,
-        "pickle_roundtrips": 120000,
-        "evalrepr_roundtrips": 60000,
+        "pickle_roundtrips": 60000,
+        "evalrepr_roundtrips": 30000,
         "xproc_objects": 200,
         "xproc_objects_other-hashseed": 100,
         "xproc_objects_same-hashseed": 100,
-        "mutants": 180000,
-        "regenerated_twins": 25000,
-        "cases": 60000,
-        "case_forms": 13000,
+        "mutants": 120000,
+        "regenerated_twins": 15000,
+        "cases": 30000,
+        "case_forms": 7000,
         "families": 29,
     },
 }
